@@ -32,6 +32,17 @@ TRUSTED = [
 ]
 
 
+# which monitor verdicts speak about which property (a verdict of another property is that property's check to report)
+KINDS = {
+    "C09": {"id-mismatch", "id-out-of-bounds", "duplicate-id", "over-capacity", "accepted-after-close", "header-not-reset", "refused-with-request",
+            "refused-but-registered", "conservation", "managed-flag", "panic", "recycling", "harness"},
+    "C10": {"misrouted", "unknown-id-result", "delivery-count", "last-not-complete", "early-complete", "delivery-failed", "event-to-request",
+            "wrong-pages", "panic", "harness"},
+    "C16": {"not-done-after-close", "no-error-after-close", "registered-after-close", "done-vs-closed", "err-without-done", "accepted-after-close",
+            "panic", "goroutine-leak", "close-hangs", "receiver-blocked", "worker-crash", "timeout-missing", "timeout-early", "harness"},
+}
+
+
 def op_to_coq(o):
     k = o[0]
     a = o[1:]
@@ -200,6 +211,8 @@ def standard(run, prop, which, extra_subs=()):
     # monitors: the property's predicate evaluated on the implementation
     for r in results:
         for v in r.get("viol") or []:
+            if v["kind"] not in KINDS[prop]:
+                continue
             findings.append({"kind": v["kind"], "cls": v.get("cls", ""), "step": v["step"], "what": v["what"], "case": r["case"],
                              "source": "monitor"})
         if r.get("panic"):
